@@ -174,7 +174,7 @@ Fixpoint asm_fancy_blocks {A B} (fuel : nat) (f : A -> A -> A -> B) (V : nat) (p
       let blk := firstn V row in
       match skipn V row with
       | [] => stencil f prev blk (last blk prev)
-      | n :: _ as rest => stencil f prev blk n ++ asm_fancy_blocks fu f V (last blk prev) rest
+      | (n :: _) as rest => stencil f prev blk n ++ asm_fancy_blocks fu f V (last blk prev) rest
       end
   end.
 Definition roundup (w V : nat) : nat := (if w mod V =? 0 then w else (w / V + 1) * V)%nat.
